@@ -50,6 +50,21 @@ def jobs(tier):
         for shape in ("single", "flat2") + (() if q else ("nested3",)):
             for outkind in ("given", "existing", "dir", "default"):
                 out.append(("create.v%d.%s.%s" % (version, shape, outkind), "job_create", dict(version=version, shape=shape, outkind=outkind)))
+    if not q:
+        for version in (1, 2, 3):
+            for shape in ("single", "flat2", "nested3"):
+                for outkind in ("given", "existing", "dir", "default"):
+                    out.append(("create.v%d.%s.%s.magnet" % (version, shape, outkind), "job_create",
+                                dict(version=version, shape=shape, outkind=outkind, magnet=True)))
+            for shape in ("flat2", "nested3"):
+                n = len(rk.SHAPES[shape])
+                import itertools as _it
+                for dmg in _it.product(("intact", "trunc", "missing", "flip"), repeat=n):
+                    if sum(1 for k in dmg if k != "intact") > (2 if n == 2 else 1):
+                        continue
+                    label = "recheck.v%d.%s.%s" % (version, shape, "-".join(k[0] for k in dmg))
+                    if not any(j[0] == label for j in out):
+                        out.append((label, "job_recheck", dict(version=version, shape=shape, dmg=list(dmg))))
     out.append(("create.v1.flat2.magnet", "job_create", dict(version=1, shape="flat2", outkind="given", magnet=True)))
     for exists in (False, True):
         out.append(("rename.%s" % ("exists" if exists else "free"), "job_rename", dict(exists=exists)))
